@@ -29,6 +29,7 @@ import (
 	"strconv"
 	"strings"
 	"sync"
+	"sync/atomic"
 	"time"
 	"unsafe"
 
@@ -197,21 +198,69 @@ func c20CallBoxed(f func(...interface{}) []interface{}, input []int) []int {
 	return out
 }
 
+func c20SameInts(a, b []int) bool {
+	if len(a) != len(b) {
+		return false
+	}
+	for i := range a {
+		if a[i] != b[i] {
+			return false
+		}
+	}
+	return true
+}
+
+// The function list is held in ONE slice that is spread into the combinator (`X(fs...)`), as a caller would do.  The
+// composition is built and run, then built a second time from the same slice and run, then the first composition is run
+// again: the three results must agree (the functions are pure) — a combinator that reorders, truncates or otherwise
+// edits its caller's slice is right the first time only.  Deviations are appended to the observation
+// (`again=… rerun=…`), which the model never prints.
 func c20RunCP(variant string, input []int, fs []func(...int) []int) string {
-	var out []int
+	var build func() func(...int) []int
 	switch variant {
 	case "C":
-		out = fpgo.Compose(fs...)(input...)
+		build = func() func(...int) []int { return fpgo.Compose(fs...) }
 	case "P":
-		out = fpgo.Pipe(fs...)(input...)
-	case "CI":
-		out = c20CallBoxed(fpgo.ComposeInterface(c20BoxAll(fs)...), input)
-	case "PI":
-		out = c20CallBoxed(fpgo.PipeInterface(c20BoxAll(fs)...), input)
+		build = func() func(...int) []int { return fpgo.Pipe(fs...) }
+	case "CI", "PI":
+		bfs := c20BoxAll(fs)
+		build = func() func(...int) []int {
+			var f func(...interface{}) []interface{}
+			if variant == "CI" {
+				f = fpgo.ComposeInterface(bfs...)
+			} else {
+				f = fpgo.PipeInterface(bfs...)
+			}
+			return func(in ...int) []int { return c20CallBoxed(f, in) }
+		}
 	default:
 		return "bad-case"
 	}
-	return "ok " + c20ShowInts(out)
+	first := build()
+	out := first(input...)
+	res := "ok " + c20ShowInts(out)
+	again := build()(input...)
+	rerun := first(input...)
+	if !c20SameInts(again, out) || !c20SameInts(rerun, out) {
+		res += " again=" + c20ShowInts(again) + " rerun=" + c20ShowInts(rerun)
+	}
+	// the other direction built from the same slice afterwards: Compose(fs) = Pipe(reverse(fs)) on a private reversed copy
+	if variant == "C" || variant == "P" {
+		rev := make([]func(...int) []int, len(fs))
+		for i, f := range fs {
+			rev[len(fs)-1-i] = f
+		}
+		var other, otherRev []int
+		if variant == "C" {
+			other, otherRev = fpgo.Pipe(rev...)(input...), fpgo.Compose(fs...)(input...)
+		} else {
+			other, otherRev = fpgo.Compose(rev...)(input...), fpgo.Pipe(fs...)(input...)
+		}
+		if !c20SameInts(other, out) || !c20SameInts(otherRev, out) {
+			res += " reversed=" + c20ShowInts(other) + " third=" + c20ShowInts(otherRev)
+		}
+	}
+	return res
 }
 
 func c20RunCG(variant string, k int, input []int, fs []func(...int) []int) string {
@@ -219,16 +268,31 @@ func c20RunCG(variant string, k int, input []int, fs []func(...int) []int) strin
 		return c20RunCP(variant, input, fs)
 	}
 	a, b := fs[:k], fs[k:]
-	var out []int
-	switch variant {
-	case "C":
-		out = fpgo.Compose(fpgo.Compose(a...), fpgo.Compose(b...))(input...)
-	case "P":
-		out = fpgo.Pipe(fpgo.Pipe(a...), fpgo.Pipe(b...))(input...)
-	default:
+	build := func() func(...int) []int {
+		if variant == "C" {
+			return fpgo.Compose(fpgo.Compose(a...), fpgo.Compose(b...))
+		}
+		return fpgo.Pipe(fpgo.Pipe(a...), fpgo.Pipe(b...))
+	}
+	if variant != "C" && variant != "P" {
 		return "bad-case"
 	}
-	return "ok " + c20ShowInts(out)
+	first := build()
+	out := first(input...)
+	res := "ok " + c20ShowInts(out)
+	// the regrouping and the flat composition, both built again from the same slice (sub-slices share its array)
+	again := build()(input...)
+	var flat []int
+	if variant == "C" {
+		flat = fpgo.Compose(fs...)(input...)
+	} else {
+		flat = fpgo.Pipe(fs...)(input...)
+	}
+	rerun := first(input...)
+	if !c20SameInts(again, out) || !c20SameInts(flat, out) || !c20SameInts(rerun, out) {
+		res += " again=" + c20ShowInts(again) + " flat=" + c20ShowInts(flat) + " rerun=" + c20ShowInts(rerun)
+	}
+	return res
 }
 
 // c20RunRU: one caller-owned slice fs (and its boxed twin bs), built once, spread into several combinator
@@ -446,7 +510,17 @@ func c20RunCurry(variant string, n int, ops []string) string {
 			}
 			return c20Hash(args)
 		})
-		callG = func(a []int) bool { return c.Call(a...) == c }
+		callG = func(a []int) bool {
+			// the caller's slice is spread into Call, has spare capacity, and is overwritten after the Call returned — as a
+			// caller re-using its buffer would do; the accumulated arguments must not live in it
+			buf := make([]int, len(a), len(a)+8)
+			copy(buf, a)
+			same := c.Call(buf...) == c
+			for i := range buf[:cap(buf)] {
+				buf[:cap(buf)][i] = -7777
+			}
+			return same
+		}
 		markDone, isDone, result = c.MarkDone, c.IsDone, c.Result
 	case "I":
 		c := fpgo.CurryNew(func(c *fpgo.CurryDef[interface{}, interface{}], args ...interface{}) interface{} {
@@ -461,11 +535,15 @@ func c20RunCurry(variant string, n int, ops []string) string {
 			return c20Hash(in)
 		})
 		callG = func(a []int) bool {
-			in := make([]interface{}, len(a))
+			in := make([]interface{}, len(a), len(a)+8)
 			for i, v := range a {
 				in[i] = v
 			}
-			return c.Call(in...) == c
+			same := c.Call(in...) == c
+			for i := range in[:cap(in)] {
+				in[:cap(in)][i] = -7777
+			}
+			return same
 		}
 		markDone, isDone = c.MarkDone, c.IsDone
 		result = func() int {
@@ -518,24 +596,76 @@ func c20RunCurry(variant string, n int, ops []string) string {
 
 // c20RunStress: g goroutines make m Calls of a arguments each (argument = ((t*10000+j)*10+pos)); the user
 // function logs every invocation and marks done once n arguments have accumulated (n = -1: never; n = -2: an
-// extra goroutine calls MarkDone at some moment).  The monitor checks the clauses of the property on the log.
+// extra goroutine calls MarkDone at some moment).  y = scheduling noise inside the function (0 none, 1 Gosched, 2 rare
+// sleeps, 3 the first invocation lingers until another one finished or 50 ms passed).  The monitor checks the clauses
+// of the property on the log.
 func c20RunStress(g, m, a, n, y int) string {
+	// The monitor runs inside the user function, under logMu, against the previously logged invocation only: memory stays
+	// linear in the number of arguments (keeping a copy of every invocation's argument list is quadratic — 4.4 GB for
+	// `cs 32 600 3 -1 0` — and made the case miss its deadline on a busy machine).
 	var logMu sync.Mutex
-	var log [][]int
+	var prev []int            // arguments of the last logged invocation
+	count := 0                // invocations logged so far
+	lastHash := 0             // the value the last logged invocation returns
+	bad := ""                 // first deviation seen
+	seenLast := map[int]int{} // goroutine -> last accepted call index
+	var finished int32
+	check := func(i int, cur []int) string {
+		if len(cur) != len(prev)+a {
+			return fmt.Sprintf("bad invocation %d saw %d arguments after %d (one Call adds %d)", i, len(cur), len(prev), a)
+		}
+		for k := range prev {
+			if cur[k] != prev[k] {
+				return fmt.Sprintf("bad invocation %d does not extend the previous arguments", i)
+			}
+		}
+		if a > 0 {
+			blk := cur[len(prev):]
+			id := blk[0] / 10
+			for p, v := range blk {
+				if v != id*10+p {
+					return fmt.Sprintf("bad invocation %d: arguments of one Call are not contiguous/in order", i)
+				}
+			}
+			t, j := id/10000, id%10000
+			if last, ok := seenLast[t]; ok && j <= last {
+				return fmt.Sprintf("bad goroutine %d: call %d accepted after call %d", t, j, last)
+			}
+			seenLast[t] = j
+		}
+		return ""
+	}
 	c := fpgo.CurryNewGenerics(func(c *fpgo.CurryDef[int, int], args ...int) int {
 		cp := append([]int{}, args...)
+		h := c20Hash(cp)
 		logMu.Lock()
-		log = append(log, cp)
+		if bad == "" {
+			bad = check(count, cp)
+		}
+		prev = cp
+		count++
+		lastHash = h
 		logMu.Unlock()
 		if y == 1 {
 			runtime.Gosched()
 		} else if y == 2 && len(cp)%7 == 0 {
 			time.Sleep(time.Microsecond)
+		} else if y == 3 && len(cp) == a {
+			// inversion probe: the invocation of the FIRST accepted Call lingers until some other invocation has
+			// finished, at most 50 ms.  Calls are serialised by the property ("once per Call with all arguments so
+			// far", Result = the last invocation's value), so no other invocation can even start meanwhile and this
+			// one simply waits the 50 ms out; if invocations overlap, a later Call overtakes it here and its own
+			// result arrives last.  Nothing in the observation depends on how long the wait really took.
+			deadline := time.Now().Add(50 * time.Millisecond)
+			for atomic.LoadInt32(&finished) == 0 && time.Now().Before(deadline) {
+				time.Sleep(100 * time.Microsecond)
+			}
 		}
 		if n >= 0 && len(cp) >= n {
 			c.MarkDone()
 		}
-		return c20Hash(cp)
+		atomic.AddInt32(&finished, 1)
+		return h
 	})
 	var wg sync.WaitGroup
 	start := make(chan struct{})
@@ -567,42 +697,20 @@ func c20RunStress(g, m, a, n, y int) string {
 			}
 			c.MarkDone()
 			logMu.Lock()
-			logAtMark = len(log)
+			logAtMark = count
 			logMu.Unlock()
 		}()
 	}
 	close(start)
 	wg.Wait()
-	// ---- monitor
-	total := g * m
-	seenLast := map[int]int{} // goroutine -> last accepted call index
-	prev := []int{}
-	for i, cur := range log {
-		if len(cur) != len(prev)+a {
-			return fmt.Sprintf("bad invocation %d saw %d arguments after %d (one Call adds %d)", i, len(cur), len(prev), a)
-		}
-		for k := range prev {
-			if cur[k] != prev[k] {
-				return fmt.Sprintf("bad invocation %d does not extend the previous arguments", i)
-			}
-		}
-		if a > 0 {
-			blk := cur[len(prev):]
-			id := blk[0] / 10
-			for p, v := range blk {
-				if v != id*10+p {
-					return fmt.Sprintf("bad invocation %d: arguments of one Call are not contiguous/in order", i)
-				}
-			}
-			t, j := id/10000, id%10000
-			if last, ok := seenLast[t]; ok && j <= last {
-				return fmt.Sprintf("bad goroutine %d: call %d accepted after call %d", t, j, last)
-			}
-			seenLast[t] = j
-		}
-		prev = cur
+	// ---- verdict
+	logMu.Lock()
+	defer logMu.Unlock()
+	if bad != "" {
+		return bad
 	}
-	accepted := len(log)
+	total := g * m
+	accepted := count
 	if accepted > total {
 		return "bad more invocations than Calls"
 	}
@@ -613,12 +721,12 @@ func c20RunStress(g, m, a, n, y int) string {
 		if accepted > logAtMark+1 {
 			return fmt.Sprintf("bad %d invocations after MarkDone returned", accepted-logAtMark)
 		}
-		if accepted > 0 && c.Result() != c20Hash(log[accepted-1]) {
+		if accepted > 0 && c.Result() != lastHash {
 			return "bad Result is not the last invocation's result"
 		}
 		return "ok"
 	}
-	if accepted > 0 && c.Result() != c20Hash(log[accepted-1]) {
+	if accepted > 0 && c.Result() != lastHash {
 		return "bad Result is not the last invocation's result"
 	}
 	wantDone := n >= 0 && accepted > 0 && accepted*a >= n
@@ -1008,6 +1116,25 @@ func c20RunMatch(mode string, probe string, pats []string) string {
 	}
 	if calls != 1 {
 		s += " calls=" + strconv.Itoa(calls)
+	}
+	// "first pattern in list order" is the order of the caller's list: matching must leave that list as it was
+	// (a self-reorganising list — move-to-front, drop-after-use — answers a LATER match by a pattern that is not the
+	// first accepting one).  Every pattern's effect knows its index, so the order can be read back through Apply.
+	for i, p := range patterns {
+		if r, _ := p.Apply(nil).(string); !strings.HasPrefix(r, "e"+strconv.Itoa(i)+" ") {
+			s += " patterns-reordered"
+			break
+		}
+	}
+	// and the same match once more, from the same list, gives the same answer
+	var res2 interface{}
+	if mode == "m" {
+		res2 = fpgo.DefPattern(patterns...).MatchFor(v)
+	} else {
+		res2 = fpgo.Either(v, patterns...)
+	}
+	if s2, _ := res2.(string); s2 != res {
+		s += " again=" + s2
 	}
 	return s
 }
